@@ -85,6 +85,12 @@ theorem build_then_resolve (cs : List BlockContent) :
     resolveBlocks [] (buildBlockMsgs [] cs) = some cs := by
   exact sym_build_then_resolve cs [] sym_tableOK_nil
 
+/-- The same for a caller-supplied base table (`WithSymbols` at build time, the same table in
+`Unmarshaler.Symbols` at load time): any duplicate-free table without default symbols. -/
+theorem build_then_resolve_from (base : SymTable) (hb : TableOK base) (cs : List BlockContent) :
+    resolveBlocks base (buildBlockMsgs base cs) = some cs := by
+  exact sym_build_then_resolve cs base hb
+
 /-! ## 5. Version gate -/
 
 theorem version_gate (v : Option Nat) : versionOk v = true ↔ v = some 3 := by
